@@ -47,11 +47,49 @@ fn lines_of(text: &str) -> Vec<&str> {
 
 /// Lex `text` completely; one JSON event.
 fn lex_event(text: &str, table: &[(char, u64)], elc: i64) -> Value {
-    let lines = lines_of(text);
     let cfg = Cfg {
         table: table.iter().map(|(c, n)| (*c, cat_from(*n))).collect(),
         elc: if elc >= 0 { char::from_u32(elc as u32) } else { None },
     };
+    lex_with(text, table, elc, &cfg)
+}
+
+/// The lexer configuration a real VM provides: category codes from codes.rs, the end-line character from
+/// endlinechar.rs (the conversion of the integer parameter into the character the lexer appends).
+struct VmCfg<'a>(&'a crate::vmh::VS);
+impl lexer::Config for VmCfg<'_> {
+    fn cat_code(&self, c: char) -> CatCode {
+        <crate::vmh::VS as texlang::traits::TexlangState>::cat_code(self.0, c)
+    }
+    fn end_line_char(&self) -> Option<char> {
+        <crate::vmh::VS as texlang::traits::TexlangState>::end_line_char(self.0)
+    }
+}
+
+/// Same event, but the configuration is a VM's state: \endlinechar is assigned by running the primitive,
+/// the category codes of the table are stored in the VM's table (every other character gets the code the
+/// plain `Cfg` gives it: other).
+fn lex_event_vm(text: &str, table: &[(char, u64)], elc: i64) -> Value {
+    let mut vm = crate::vmh::new_vm(&[], &[]);
+    let r = crate::vmh::run_src::<crate::vmh::H>(&mut vm, "setup.tex", &format!("\\endlinechar={elc} "), 10_000);
+    if !matches!(r.outcome, crate::vmh::Outcome::Ok) {
+        return json!({"lines":[],"table":[],"elc":elc,"toks":[],"panic":format!("setup failed: {:?}", r.outcome),"text":text,"via":"vm"});
+    }
+    // characters outside the table (the end-line character, results of ^^ reduction) have the code "other"
+    // in the plain `Cfg`: the VM's table starts from the same default
+    for u in 0..256usize {
+        *vm.state.codes_cat_code.get_mut(u) = CatCode::Other;
+    }
+    for (c, n) in table {
+        *vm.state.codes_cat_code.get_mut(*c as usize) = cat_from(*n);
+    }
+    let mut ev = lex_with(text, table, elc, &VmCfg(&vm.state));
+    ev["via"] = json!("vm");
+    ev
+}
+
+fn lex_with<C: lexer::Config>(text: &str, table: &[(char, u64)], elc: i64, cfg: &C) -> Value {
+    let lines = lines_of(text);
     let r = catch(|| {
         let mut tracer: trace::Tracer = Default::default();
         let mut interner: CsNameInterner = Default::default();
@@ -65,7 +103,7 @@ fn lex_event(text: &str, table: &[(char, u64)], elc: i64) -> Value {
                 toks.push(json!({"k":"runaway","cat":-1,"ch":0,"name":[],"ln":0,"col":0,"lnok":false}));
                 break;
             }
-            let (kind, token, ch) = match lx.next(&cfg, &mut interner, false) {
+            let (kind, token, ch) = match lx.next(cfg, &mut interner, false) {
                 lexer::Result::Token(t) => ("tok", t, 0u32),
                 lexer::Result::InvalidCharacter(c, key) => ("invalid", Token::new_letter(c, key), c as u32),
                 lexer::Result::EndOfLine => continue,
@@ -169,6 +207,17 @@ pub fn events(args: &Args) -> i32 {
         }
         let elc = *rng.pick(&[-1i64, 13, 13, 13, 97, 94, 32, 37, 92, 0, 127, 54, 98]);
         out.line(&lex_event(&text, &tb, elc));
+        // every third text also through a VM's own configuration, with any ASCII end-line character
+        // (the characters of the text that are not ASCII keep the plain code "other" in both)
+        if i % 3 == 0 && text.chars().all(|c| (c as u32) < 128) {
+            let elc = match rng.below(6) {
+                0 => -1,
+                1 => 13,
+                2 => *rng.pick(&[0i64, 1, 31, 32, 126, 127]),
+                _ => rng.below(128) as i64,
+            };
+            out.line(&lex_event_vm(&text, &tb, elc));
+        }
     }
     0
 }
